@@ -358,6 +358,14 @@ func (fx *Facts) valueFacts(v ssa.Value, want Want, depth int, visiting map[ssa.
 		}
 		return s
 	case *ssa.Call:
+		if want == WantNil || want == WantNonNil {
+			if cal := x.Common().StaticCallee(); cal != nil && neverNilResult(cal) {
+				if want == WantNil {
+					return bottomSet()
+				}
+				return emptySet()
+			}
+		}
 		s := emptySet()
 		s.add(fx.atom(v, want))
 		if fn := x.Common().StaticCallee(); fn != nil && fn.Blocks != nil && fx.depthOK(depth) {
@@ -903,4 +911,13 @@ func (fx *Facts) pathFactsTo(b *ssa.BasicBlock, depth int) []FactSet {
 		return []FactSet{in}
 	}
 	return res
+}
+
+// neverNilResult: library constructors of errors whose result is never nil.
+func neverNilResult(fn *ssa.Function) bool {
+	switch funcPkgPath(fn) + "." + fn.Name() {
+	case "fmt.Errorf", "errors.New", "github.com/pkg/errors.New", "github.com/pkg/errors.Errorf", "github.com/pkg/errors.WithStack":
+		return true
+	}
+	return false
 }
